@@ -122,6 +122,14 @@ CHECKS = {
              "scope, or produced on generated expressions x environments with unknown and half-open ends - is checked by TLC: "
              "for all valuations admitted by the environment the expression's value lies in base + [lo, hi].",
         note="Trusted: TLC, the claim export (harness/rangeclaims.py); unknown ends explored in a finite window."),
+    "C07": dict(level=MC, design="6/C07",
+        technique="TLA+ SessionTrace specification (frame conditions Immutable / CursorsStable as enabling conditions of every step) validating recorded real scheduling sessions; TLC",
+        text="Random sessions apply candidates of the whole primitive grid (about half of which raise, some after partial "
+             "rewriting), prints, forwards and C generation to randomly chosen live procedures; after every operation every live "
+             "Procedure (deep structural fingerprint of all nodes, lists and callees, printed text, C text) and every live cursor "
+             "is re-fingerprinted, and TLC accepts the session only if each observation is a step of the state machine in which "
+             "no existing procedure or cursor changed and failing operations define nothing.",
+        note="Trusted: TLC, the fingerprint function (harness/purity.py); module-level caches observed only through results."),
 }
 
 NOT_YET = {}
